@@ -32,6 +32,8 @@ with closed-form physics:
 """
 from __future__ import annotations
 
+from typing import Optional
+
 import math
 
 import numpy as np
@@ -575,8 +577,8 @@ def check_sphere(c: dict) -> list:
     return fails
 
 
-def gen_sphere(rng) -> dict:
-    En = float(np.exp(rng.uniform(np.log(0.8e6), np.log(2e8))))
+def gen_sphere(rng, energy: Optional[float] = None) -> dict:
+    En = float(np.exp(rng.uniform(np.log(0.8e6), np.log(2e8)))) if energy is None else float(energy)
     while True:
         grid = [int(rng.integers(12, 25)) for _ in range(3)]
         ext = [float(E.pick(rng, 3.0, 3.0, 3.5, 4.0, 5.0)) for _ in range(3)]
@@ -589,7 +591,7 @@ def gen_sphere(rng) -> dict:
     L = float(E.pick(rng, 0.3, 0.7, 1.0, 2.0))
     offc = E.pick(rng, "none", "none", "none", "far")
     offset = [0.0, 0.0, 0.0]
-    if offc == "far":
+    if offc == "far" and energy is None:
         offset[int(rng.integers(3))] = float(E.pick(rng, 3.0, -5.0, 10.0))
     p0c = math.sqrt(En ** 2 - MC2 ** 2)
     # charge for a largest transverse kick of 1e-7
@@ -714,8 +716,15 @@ def _run(ctx) -> None:
     rep, rng = ctx.report, ctx.rng
     plan = ([("relations", gen_relations)] * ctx.n(100, 2500) + [("vector", gen_vector)] * ctx.n(25, 500)
             + [("sphere", gen_sphere)] * ctx.n(30, 500) + [("veclength", gen_veclength)] * ctx.n(2, 6))
+    n_sphere = 0
     for kind, gen in plan:
         c = gen(rng)
+        if kind == "sphere":
+            # the first spheres are mildly relativistic and centred in every run (gamma 1.6, 2, 2.5: factors of beta
+            # are visible there, at 100 MeV they are not)
+            if n_sphere < 3:
+                c = gen_sphere(rng, energy=(0.8e6, 1.0e6, 1.3e6)[n_sphere])
+            n_sphere += 1
         rep.fals_cases += 1
         rep.count("kind:" + kind)
         if kind == "relations":
